@@ -186,7 +186,9 @@ def fail(ctx, key, case, expected, observed, what=""):
     """forward at most two failures per call-site class, so that every class gets reported"""
     ctx.bump("oraclefail:" + key)
     if ctx.hist["oraclefail:" + key] <= 2:
-        ctx.oracle_fail(key, case, expected, observed, what)
+        def short(x):
+            return x[:3000] + f"...({len(x)} chars)" if isinstance(x, str) and len(x) > 3000 else x
+        ctx.oracle_fail(key, case, short(expected), short(observed), what)
 
 
 # =========================================================================== (a) framing
@@ -202,10 +204,13 @@ def _mtok(m):
         return "get:" + tok(m.key)
     if isinstance(m, ipc.KGRemoteCloseConnection):
         return "close"
+    import hashlib
     if isinstance(m, str) and type(m) is str and len(m) > 2000:
-        import hashlib
         return f"S{len(m)}:{hashlib.sha1(m.encode()).hexdigest()}"      # long text: length + digest
-    return tok(m)
+    t = tok(m)
+    if len(t) > 4000:
+        return f"H{len(t)}:{hashlib.sha1(t.encode()).hexdigest()}"      # long value: digest of its canonical form
+    return t
 
 
 def make_messages(twin):
@@ -219,6 +224,24 @@ def make_messages(twin):
              ipc.KGRemoteDictSetCall(KGSym("foo"), vals[-3]), ipc.KGRemoteDictGetCall(KGSym("foo")),
              ipc.KGRemoteFnRef(2), ipc.KGRemoteCloseConnection()]
     return msgs
+
+
+def big_values(rng, quick):
+    """values whose pickle is >= 64 KiB and does not deflate: full-range random int64 vectors, flat and nested"""
+    def vec(n):
+        return np.frombuffer(rng.randbytes(8 * n), dtype=np.int64).copy()
+    out = []
+    for n in ([8200, 9000] if quick else [8192, 8200, 8300, 12000, 20000]):
+        out.append(vec(n))
+    nested = np.empty(3, dtype=object)
+    nested[0], nested[1], nested[2] = 1, vec(8500), "a"
+    out.append(nested)
+    out.append({1: vec(8300), "k": "v"})
+    if not quick:
+        m = vec(2 * 5000).reshape(2, 5000)
+        out.append(m)
+        out.append("".join(chr(rng.randrange(0x100, 0x2000)) for _ in range(40000)))     # high-entropy text
+    return out
 
 
 class StreamRig:
@@ -238,9 +261,9 @@ class StreamRig:
         raw, out = [], []
         orig = ipc.decode_message
 
-        def rec(raw_id, data):
+        def rec(raw_id, data, *a, **kw):     # whatever else the code passes is handed on untouched
             raw.append((bytes(raw_id), bytes(data)))
-            return orig(raw_id, data)
+            return orig(raw_id, data, *a, **kw)
 
         ipc.decode_message = rec            # module-global lookup inside stream_recv_msg
         feeder = None
@@ -392,8 +415,10 @@ def run_framing(ctx, drv, twin):
                 # independent description of the format + the model's encoder
                 body = pickle.dumps(o)
                 if f != i.bytes + len(body).to_bytes(4, "big") + body:
-                    fail(ctx, "stream:encode", dict(kind="encode", id=i.hex, msg=_mtok(o)),
-                                    "16-byte id + 32-bit big-endian length + pickle", f.hex()[:200])
+                    # the wire format is the model's business, not the property's: a broken tie
+                    ctx.mismatch("frame format: 16-byte id + 32-bit big-endian length + pickle",
+                                 dict(kind="encode", id=i.hex, msg=_mtok(o)), "id ++ be32 len ++ pickle",
+                                 f.hex()[:200])
                 sent = rig.send(i, o)
                 if sent != f:
                     fail(ctx, "stream:send", dict(kind="encode", id=i.hex, msg=_mtok(o)), f.hex()[:200],
@@ -433,7 +458,7 @@ def run_framing(ctx, drv, twin):
                 cuts = rng.sample(cuts, 6000)
             lines, impls = run_stream_batch(ctx, drv, rig, "short-exhaustive" if len(full) <= 130 else
                                             "payload-sampled", frames, objs, ids, full, cuts)
-            if len(kernel_samples) < 3 and len(full) <= 80:
+            if len(kernel_samples) < 3 and len(full) <= 80 and lines:
                 k = rng.randrange(len(lines))
                 kernel_samples.append((lines[k], impls[k]))
             # lazily fed: same cuts, bytes arrive while the reader waits
@@ -514,6 +539,24 @@ def run_framing(ctx, drv, twin):
                         run_stream_batch(ctx, drv, rig, "long-truncated:" + shape, frames, objs, ids,
                                          full[:cutlen], c, lazy=bool(cutlen % 2), model_max=1 if quick else 3)
 
+        # ---- long frames whose content does not compress (random 64-bit integers), alone and with neighbours
+        for bv in big_values(rng, quick):
+            for objs in ([bv], [1, bv, ""]) if quick else ([bv], [1, bv, ""], [bv, bv], [bv, twin(":a")]):
+                ids, frames = mk(objs)
+                full = b"".join(frames)
+                n = len(full)
+                ends, pos = [], 0
+                for f in frames:
+                    pos += len(f)
+                    ends.append(pos)
+                marks = sorted({0, n, 16, 20} | {e for e in ends} | {e - 1 for e in ends} | {20 + 2 ** 16})
+                marks = [m for m in marks if 0 <= m <= n]
+                cuts = [(n, n), (0, 0)] + [(m, n) for m in marks] + \
+                       [(a, b) for a in marks for b in marks if a < b and rng.random() < 0.15]
+                for lazy in (False, True):
+                    run_stream_batch(ctx, drv, rig, "long-incompressible", frames, objs, ids, full, cuts,
+                                     lazy=lazy, model_max=1 if quick else 4)
+
         # ---- long frames (lengths that need 2 and 3 length bytes), seeded
         sizes = [255, 256, 257, 1000, 4095, 65535, 65536, 70000]
         for r in range(6 if quick else 40):
@@ -567,6 +610,10 @@ class RemoteRaised(Exception):
     pass
 
 
+class NoAnswer(Exception):
+    pass
+
+
 class Live:
     """server interpreter + client interpreter (own io / klong loops each) + twin interpreter"""
 
@@ -576,6 +623,7 @@ class Live:
         import klongpy.sys_fn_ipc as ipc
         self.ipc = ipc
         self.alive = time.time()
+        self.dirty = set()
         self.srv = self.cli = None
         self.srv, self.srv_loops = create_repl()
         self.cli, self.cli_loops = create_repl()
@@ -605,6 +653,13 @@ class Live:
 
     def connect(self, conn):
         f, d = self.handles(conn)
+        if self.is_open(conn):
+            # replacing a connection that is still up (a call on it failed): close it first, so that no
+            # listener task is left behind on the client's io loop
+            try:
+                self.guard(lambda: self.cli(f".clic({f})"), "close replaced connection", timeout=8, soft=True)
+            except (RemoteRaised, NoAnswer):
+                pass
         self.guard(lambda: self.cli(f'{f}::.cli("127.0.0.1:{self.port}")'), "connect")
         self.guard(lambda: self.cli(f"{d}::.clid({f})"), "dict handle")
 
@@ -612,8 +667,10 @@ class Live:
     def handles(conn):
         return ("f", "d") if conn == 0 else ("ff", "dd")
 
-    def guard(self, fn, what):
-        """run a client-side call with a deadline (a hung connection is an infrastructure failure)"""
+    def guard(self, fn, what, timeout=None, soft=False):
+        """run a client-side call with a deadline (a hung connection is an infrastructure failure;
+        `soft`: reported to the caller as NoAnswer instead)"""
+        timeout = timeout or OP_TIMEOUT
         box = {}
 
         def run():
@@ -624,9 +681,11 @@ class Live:
 
         t = threading.Thread(target=run, daemon=True)
         t.start()
-        t.join(OP_TIMEOUT)
+        t.join(timeout)
         if t.is_alive():
-            raise Infra(f"live IPC: {what} did not return within {OP_TIMEOUT}s")
+            if soft:
+                raise NoAnswer(f"{what} did not return within {timeout}s")
+            raise Infra(f"live IPC: {what} did not return within {timeout}s")
         if "e" in box:
             raise RemoteRaised(f"{type(box['e']).__name__}: {box['e']}")
         return box["r"]
@@ -684,6 +743,14 @@ class Live:
                     if getattr(t.get_coro(), "__qualname__", "") != "LoopStopper.wait"]
             if not pend:
                 break
+            if time.time() - t0 > 2:
+                # left-over listener tasks (abandoned connections): cancel them while their loop still runs
+                # (klongpy.repl.cleanup_async_loop spins for ever on tasks pending after the loop stopped)
+                for t in pend:
+                    try:
+                        t.get_loop().call_soon_threadsafe(t.cancel)
+                    except Exception:      # noqa
+                        pass
             time.sleep(0.01)
         step(lambda: cleanup_repl(self.cli_loops), "stop client loops")
         step(lambda: cleanup_repl(self.srv_loops), "stop server loops")
@@ -835,6 +902,7 @@ def run_op(ctx, live, drv, op, history):
     except RemoteRaised as e:
         fail(ctx, f"live:{form}:raises", case, expect, str(e)[:300],
                         "the same operation succeeds locally on the server interpreter")
+        live.dirty.add(op.get("conn", 0))       # that connection is gone: continue on a fresh one
         return False
     live.alive = time.time()
 
@@ -953,6 +1021,215 @@ def gen_projection_ops(rng, name, conn):
     return ops
 
 
+def big_exprs(rng, quick):
+    """Klong literals whose values pickle to >= 64 KiB of incompressible bytes (full-range 64-bit integers)"""
+    def lit(n):
+        return "[" + " ".join(str(rng.randrange(-2 ** 63 + 1, 2 ** 63)) for _ in range(n)) + "]"
+    out = [lit(8300), '[1 ' + lit(8400) + ' "a"]']
+    if not quick:
+        out += [lit(8192), lit(12000), lit(20000), ":{[1 " + lit(8300) + "]}", "[" + lit(4200) + " " + lit(4200) + "]"]
+    return out
+
+
+def gen_big_ops(rng, e, conn, quick):
+    n = rng.choice(USER_NAMES)
+    ops = [dict(form="text-lit", e=e, conn=conn, style="var"),                 # big answer
+           dict(form="fcall", name="id1", es=[e], conn=conn, style="array"),    # big request and answer
+           dict(form="dset", name=n, e=e, conn=conn, style="py"),               # big request
+           dict(form="dget", name=n, conn=1 - conn),                            # big answer, other connection
+           dict(form="proxy", name="id1", es=[e], conn=conn, via="f")]
+    if not quick:
+        ops += [dict(form="text-assign", name=n, e=e, conn=conn), dict(form="sym", name=n, conn=conn),
+                dict(form="fcall", name="snd", es=["1", e], conn=conn, style="array"),
+                dict(form="fcall", name="keep", es=[e], conn=conn, style="klong"),
+                dict(form="text-var", name="last", conn=1 - conn)]
+    return ops
+
+
+def run_slow_fragments(ctx, live, quick, plans=None, exprs=None):
+    """a frame that reaches the receiver in two network reads with a real pause in between (cut after the
+    id, inside / after the length, inside the body), towards the live server (raw socket client) and
+    towards a KlongPy client (raw server).  The pause only spaces the reads; the oracle is the value."""
+    ipc = live.ipc
+    rng = ctx.rng
+    twin = live.twin
+    exprs = exprs or ["[1 2 3]", '"hello foo"', ':{[1 2]}', "[[1 2] [3 4]]", "1%0", '[1 "a" :b 0cx]']
+    plans = plans or ([(16, 0.8), (20, 0.8), ("mid", 0.8)] if quick else
+                      [(16, 0.8), (17, 0.6), (18, 1.0), (19, 0.8), (20, 1.5), (21, 0.8), ("mid", 1.2), ("last", 0.8),
+                       (5, 0.8)])
+    jobs = [(c, g, rng.choice(exprs), uuid.UUID(int=rng.getrandbits(128))) for c, g in plans]
+
+    def cutpos(frame, c):
+        return {"mid": 20 + (len(frame) - 20) // 2, "last": len(frame) - 1}.get(c, c)
+
+    # ---------------- towards the server
+    async def to_server(c, gap, e, mid):
+        reader, writer = await asyncio.open_connection("127.0.0.1", live.port)
+        try:
+            frame = ipc.encode_message(mid, e)
+            k = cutpos(frame, c)
+            writer.write(frame[:k])
+            await writer.drain()
+            await asyncio.sleep(gap)
+            writer.write(frame[k:])
+            await writer.drain()
+            try:
+                rid, resp = await asyncio.wait_for(ipc.stream_recv_msg(reader), 15)
+                got = ("ok", rid == mid, tok(resp))
+            except Exception as ex:                                   # noqa
+                got = ("no-answer", type(ex).__name__, str(ex)[:200])
+            try:                                                      # polite close
+                cid = uuid.uuid4()
+                writer.write(ipc.encode_message(cid, ipc.KGRemoteCloseConnection()))
+                await writer.drain()
+                await asyncio.wait_for(ipc.stream_recv_msg(reader), 3)
+            except Exception:                                         # noqa
+                pass
+            return got
+        finally:
+            writer.close()
+
+    async def all_to_server():
+        return await asyncio.gather(*[to_server(*j) for j in jobs], return_exceptions=True)
+
+    loop = asyncio.new_event_loop()
+    try:
+        results = loop.run_until_complete(asyncio.wait_for(all_to_server(), 90))
+    finally:
+        loop.close()
+    for (c, gap, e, mid), got in zip(jobs, results):
+        case = dict(kind="slow", direction="to-server", cut=c, gap=gap, e=e)
+        want = ("ok", True, tok(twin(e)))
+        if isinstance(got, BaseException):
+            got = ("no-answer", type(got).__name__, str(got)[:200])
+        if tuple(got) != want:
+            fail(ctx, "live:slow-fragments:to-server", case, list(want), list(got),
+                 "a request whose bytes arrive in two reads with a pause must be answered like any other")
+        ctx.bump("live:slow:to-server")
+        ctx.count(("slow", "to-server", c, gap, e))
+
+    # ---------------- towards a KlongPy client: a raw server answers in two pieces
+    todo = [(c, g, twin(e), e) for c, g, e, _ in jobs]
+    state = dict(port=None, stop=None, loop=None)
+    ready = threading.Event()
+
+    async def handler(reader, writer):
+        try:
+            while True:
+                mid, msg = await asyncio.wait_for(ipc.stream_recv_msg(reader), 20)
+                if isinstance(msg, ipc.KGRemoteCloseConnection):
+                    writer.write(ipc.encode_message(mid, msg))
+                    await writer.drain()
+                    return
+                c, gap, value, _ = state["plan"]
+                frame = ipc.encode_message(mid, value)
+                k = cutpos(frame, c)
+                writer.write(frame[:k])
+                await writer.drain()
+                await asyncio.sleep(gap)
+                writer.write(frame[k:])
+                await writer.drain()
+        except Exception:                                             # noqa
+            pass
+        finally:
+            writer.close()
+
+    def serve():
+        lp = asyncio.new_event_loop()
+        state["loop"] = lp
+        asyncio.set_event_loop(lp)
+
+        async def main():
+            state["stop"] = asyncio.Event()
+            server = await asyncio.start_server(handler, "127.0.0.1", 0)
+            state["port"] = server.sockets[0].getsockname()[1]
+            ready.set()
+            await state["stop"].wait()
+            server.close()
+        try:
+            lp.run_until_complete(main())
+        finally:
+            ready.set()
+
+    th = threading.Thread(target=serve, daemon=True)
+    th.start()
+    ready.wait(20)
+    if not state["port"]:
+        raise Infra("raw answer server did not start")
+    cli = live.cli
+    try:
+        connected = False
+        for plan in todo:
+            c, gap, value, e = plan
+            state["plan"] = plan
+            case = dict(kind="slow", direction="to-client", cut=c, gap=gap, e=e)
+            try:
+                if not connected:
+                    live.guard(lambda: cli(f'fr::.cli("127.0.0.1:{state["port"]}")'), "connect to raw server")
+                    connected = True
+                rv = live.guard(lambda: cli('fr("go")'), "slow answer", timeout=gap + 12, soft=True)
+                got = tok(rv)
+            except RemoteRaised as ex:
+                got, connected = "raises " + str(ex)[:200], False
+            except NoAnswer as ex:
+                got, connected = "no answer: " + str(ex), False
+            if got != tok(value):
+                fail(ctx, "live:slow-fragments:to-client", case, tok(value), got,
+                     "an answer whose bytes arrive in two reads with a pause must be delivered like any other")
+                if got.startswith("no answer"):
+                    break                      # the client interpreter is stuck in that call
+            ctx.bump("live:slow:to-client")
+            ctx.count(("slow", "to-client", c, gap, e))
+        if connected:
+            try:
+                live.guard(lambda: cli(".clic(fr)"), "close raw connection", timeout=10, soft=True)
+            except (RemoteRaised, NoAnswer):
+                pass
+    finally:
+        if state["loop"] is not None and state["stop"] is not None:
+            state["loop"].call_soon_threadsafe(state["stop"].set)
+        th.join(10)
+
+
+def run_function_values(ctx, live, quick):
+    """`d,:name,fn`: a client-side function stored on the server through the remote dictionary (documented
+    for .clid) must then behave there like the same definition made locally, also when the function has
+    been called before it is sent (its AST then carries evaluation memos).  Oracle only (no model)."""
+    cli, twin = live.cli, live.twin
+    bodies = [("{a::x+1;a*2}", ["3"], 1), ("{x-y}", ["9", "2"], 2), ("{x,y,z}", ["1", "2", "3"], 3),
+              ("{(x*x)+1}", ["4"], 1), ("{+/x}", ["[1 2 3]"], 1)]
+    if quick:
+        bodies = bodies[:3]
+    for body, args, arity in bodies:
+        for called_before in (False, True):
+            case = dict(kind="fnvalue", body=body, args=args, called_before=called_before)
+            call = _args_text(args)
+            twin("cg::" + body)
+            want = tok(twin("cg" + call))
+            for conn in (0, 1):
+                if conn in live.dirty or not live.is_open(conn):
+                    live.connect(conn)
+                    live.dirty.discard(conn)
+            try:
+                cli("cg::" + body)
+                if called_before:
+                    cli("cg" + call)
+                    cli("cg" + call)
+                live.guard(lambda: cli("d,:fnv,cg"), "dict set of a function")
+                got = [tok(live.guard(lambda: cli('f("fnv' + _esc(call) + '")'), "text call")),
+                       tok(live.guard(lambda: cli("qq::d?:fnv"), "proxy fetch")),
+                       tok(live.guard(lambda: cli("qq" + call), "proxy call"))]
+                exp = [want, f"P{arity},y{_hex('fnv')}", want]
+            except RemoteRaised as ex:
+                got, exp = "raises " + str(ex)[:200], "function stored and callable on the server"
+                live.dirty |= {0, 1}
+            if got != exp:
+                fail(ctx, "live:fnvalue:" + ("called-before" if called_before else "fresh"), case, exp, got,
+                     "a function stored through the remote dictionary must equal the same definition on the server")
+            ctx.bump("live:fnvalue")
+            ctx.count(("fnvalue", body, called_before))
+
+
 def gen_sequence(rng, length):
     ops = []
     for _ in range(length):
@@ -1001,8 +1278,9 @@ def run_sequence(ctx, live, drv, ops, singleton):
     hist = []
     for op in ops:
         for conn in (0, 1):
-            if not live.is_open(conn):
+            if conn in live.dirty or not live.is_open(conn):
                 live.connect(conn)
+                live.dirty.discard(conn)
         if op["form"] in ("text-var", "text-undefq", "sym", "dget", "proxy") and \
                 op["name"] in USER_NAMES + REBIND_NAMES:
             from klongpy.core import KGSym
@@ -1052,6 +1330,18 @@ def run_live(ctx, drv, live, singleton):
     pairs += [(u, rng.choice(UNIVERSE)) for u in UNDEF_EXPRS[: (2 if quick else 7)]]
     for e1, e2 in pairs:
         run_sequence(ctx, live, drv, gen_pair_ops(rng, e1, e2, rng.randrange(2)), singleton)
+    # values whose pickle is large and does not compress, in both directions
+    for e in big_exprs(rng, quick):
+        ops = gen_big_ops(rng, e, rng.randrange(2), quick)
+        # each direction on its own (a failure ends a sequence), then all of them as one history
+        for sub in ([ops[0]], [ops[1]], ops[2:4], [ops[4]]):
+            run_sequence(ctx, live, drv, sub, singleton)
+        if not quick:
+            run_sequence(ctx, live, drv, ops, singleton)
+    # frames delivered in two reads with a real pause in between
+    run_slow_fragments(ctx, live, quick)
+    # functions as values of the remote dictionary
+    run_function_values(ctx, live, quick)
     # names bound to projections (fixed argument not leading, nested) and their asymmetric bases
     for name in PROJ:
         for rep in range(1 if quick else 6):
@@ -1134,7 +1424,8 @@ def run(ctx):
         ctx.extra["kernel_recheck_s"] = round(time.time() - t0, 1)
         t0 = time.time()
         framing_broken = [f["key"] for f in ctx.oracle_failures
-                          if f["key"].startswith("stream:") and not f["key"].endswith(":undefined")]
+                          if f["key"].startswith("stream:") and not f["key"].endswith(":undefined")
+                          and not str(f["case"].get("label", "")).startswith("long-")]
         if framing_broken:
             # frames do not survive the stream: a live pair would only stall on its first call
             ctx.extra["live_pair"] = "not started: framing already fails (" + framing_broken[0] + ")"
@@ -1186,6 +1477,12 @@ def replay(ctx, case):
         elif c.get("kind") == "live":
             live = Live()
             run_sequence(ctx, live, drv, c["ops"], singleton)
+        elif c.get("kind") == "fnvalue":
+            live = Live()
+            run_function_values(ctx, live, False)
+        elif c.get("kind") == "slow":
+            live = Live()
+            run_slow_fragments(ctx, live, True, plans=[(c["cut"], c["gap"])], exprs=[c["e"]])
         else:
             run(ctx)
             return
